@@ -1,4 +1,5 @@
 """C06 — rounding to a scale obeys each of the seven rounding modes."""
+import os
 import sys
 import z3
 
@@ -120,6 +121,9 @@ def confirm(v, dmode):
     if not mdl:
         return False, 'no model'
     k = t['kind']
+    if k == 'kernel':
+        from . import kani_e2
+        return kani_e2.check_line(mdl['line'])
     if k in ('wsr', 'round', 'with_scale'):
         n, s0 = mdl['n'], mdl['s0']
         kk = t['k']
@@ -242,6 +246,11 @@ def main(tier):
     rep.validated, rep.validation_mismatches = validate(prog, rng, 300 if tier == 'quick' else 3000, dmode, rep)
     results = H.run_parallel(tasks, worker, progress=100)
     rep.add(results)
+    if tier == 'thorough' or os.environ.get('VERIF_E2') == '1':
+        # E2: the same two public kernels decided independently by Kani/CBMC over the compiled code (cross-check of E1)
+        from . import kani_e2
+        info = kani_e2.run(rep, PROP)
+        sys.stderr.write('[C06] E2 (Kani): %s\n' % info.get('status'))
     for r in results:
         for v in r['violations']:
             ok, out = confirm(v, dmode)
